@@ -9,6 +9,7 @@ package sharedcomponent
 
 import (
 	"context"
+	"errors"
 	"fmt"
 	"sync"
 	"testing"
@@ -46,21 +47,83 @@ func (h *vHost) Report(e *componentstatus.Event) {
 	*h.log = append(*h.log, [2]int{h.i, int(e.Status())})
 }
 
-type vComp struct{ host component.Host }
+type vComp struct {
+	host                component.Host
+	failStart, failStop bool // the wrapped component's own Start / Shutdown fails (error paths of Component.Start/Shutdown)
+}
 
-func (c *vComp) Start(_ context.Context, h component.Host) error { c.host = h; return nil }
-func (c *vComp) Shutdown(context.Context) error                   { return nil }
+func (c *vComp) Start(_ context.Context, h component.Host) error {
+	c.host = h
+	if c.failStart {
+		return fmt.Errorf("start: %w", context.DeadlineExceeded)
+	}
+	return nil
+}
+
+func (c *vComp) Shutdown(context.Context) error {
+	if c.failStop {
+		return errors.New("stop failed")
+	}
+	return nil
+}
 
 func TestVerifC11Shared(t *testing.T) {
 	out := vOpen()
 	defer out.Close()
 	rng := vNewRand(1111)
+	// the Coq witness of shared_delivers_all_refuted (Proofs.s3_witness_es) replayed on the implementation:
+	// Starting + OK, RecoverableError, OK, RecoverableError, OK before the late attach, then RecoverableError, Shutdown
+	{
+		var log [][2]int
+		m := NewMap[int, *vComp]()
+		inner := &vComp{}
+		comp, err := m.LoadOrStore(1, func() (*vComp, error) { return inner, nil })
+		if err != nil {
+			t.Fatal(err)
+		}
+		script := [][2]int{{0, 0}, {1, 1}}
+		_ = comp.Start(context.Background(), &vHost{0, &log})
+		for _, st := range []int{2, 3, 2, 3, 2} {
+			componentstatus.ReportStatus(inner.host, componentstatus.NewEvent(componentstatus.Status(st)))
+			script = append(script, [2]int{1, st})
+		}
+		_ = comp.Start(context.Background(), &vHost{1, &log})
+		script = append(script, [2]int{0, 1})
+		componentstatus.ReportStatus(inner.host, componentstatus.NewEvent(componentstatus.StatusRecoverableError))
+		_ = comp.Shutdown(context.Background())
+		script = append(script, [2]int{1, 3}, [2]int{1, 6}, [2]int{1, 7})
+		st := make([]string, len(script))
+		for i, x := range script {
+			st[i] = vPair(vNat(x[0]), vZ(int64(x[1])))
+		}
+		ob := make([]string, len(log))
+		late := 0
+		for i, e := range log {
+			ob[i] = vPair(vNat(e[0]), vZ(int64(e[1])))
+		}
+		state := 0
+		for _, e := range log {
+			if e[0] == 1 && vDiagram(state, e[1]) {
+				state = e[1]
+				late++
+			}
+		}
+		term := vPair("1", vPair(vList(st), vList(ob)))
+		out.Case(true, term)
+		out.Stat("s3_coq_witness_replayed", 1)
+		if late == 0 {
+			out.Oracle("shared-late-instance-misses-status", term,
+				"reports_before_first_late_attach=6 instance=1 delivered=[] (the Coq witness of shared_delivers_all_refuted replayed)")
+		}
+	}
 	n := vBudget(400, 20)
 	for c := 0; c < n; c++ {
 		var log [][2]int
 		var script [][2]int
 		m := NewMap[int, *vComp]()
-		inner := &vComp{}
+		// 15 %: the wrapped component's Start fails (Component.Start then reports PermanentError to every instance and
+		// keeps it for late ones); 25 % of the shutdowns fail (PermanentError instead of Stopped)
+		inner := &vComp{failStart: rng.Intn(100) < 15, failStop: rng.Intn(100) < 25}
 		comp, err := m.LoadOrStore(1, func() (*vComp, error) { return inner, nil })
 		if err != nil {
 			t.Fatal(err)
@@ -69,11 +132,18 @@ func TestVerifC11Shared(t *testing.T) {
 		// attach instants: instance 0 first; the others after a generated number of reports.
 		// ~8% of the cases put more than 5 reports before a late attach (known finding S3 region).
 		attached := 1
+		attachAt := make([]int, 5) // len(log) when instance k had finished attaching (replay included)
 		_ = comp.Start(context.Background(), &vHost{0, &log})
 		script = append(script, [2]int{0, 0}, [2]int{1, 1}) // attach 0; automatic Starting
 		reportsSoFar := 1
 		firstLateAt := -1
 		cur := 1
+		if inner.failStart {
+			script = append(script, [2]int{1, 4})
+			reportsSoFar++
+			cur = 4
+			out.Stat("wrapped_start_failed", 1)
+		}
 		steps := 2 + rng.Intn(10)
 		deep := rng.Intn(100) < 8
 		for k := 0; k < steps; k++ {
@@ -87,6 +157,7 @@ func TestVerifC11Shared(t *testing.T) {
 			if wantAttach {
 				_ = comp.Start(context.Background(), &vHost{attached, &log})
 				script = append(script, [2]int{0, attached})
+				attachAt[attached] = len(log)
 				if firstLateAt < 0 {
 					firstLateAt = reportsSoFar
 				}
@@ -118,7 +189,12 @@ func TestVerifC11Shared(t *testing.T) {
 		}
 		if rng.Intn(2) == 0 {
 			_ = comp.Shutdown(context.Background())
-			script = append(script, [2]int{1, 6}, [2]int{1, 7})
+			if inner.failStop {
+				script = append(script, [2]int{1, 6}, [2]int{1, 4})
+				out.Stat("wrapped_shutdown_failed", 1)
+			} else {
+				script = append(script, [2]int{1, 6}, [2]int{1, 7})
+			}
 		}
 		st := make([]string, len(script))
 		for i, s := range script {
@@ -132,17 +208,32 @@ func TestVerifC11Shared(t *testing.T) {
 		out.Case(attached > 1, term)
 		out.Stat(fmt.Sprintf("late_attach_after_%02d_reports", firstLateAt), 1)
 
-		// direct oracle
+		// direct oracle — "delivers its status to every instance it represents": the state machine behind every instance
+		// (a) begins with Starting, (b) ends in the same status as the first instance's, (c) accepts exactly the same events
+		// as the first instance's from the moment it is attached.  (HOW a late instance is brought up to the current status
+		// — the whole history, or a shorter legal path — is not prescribed.)
 		events := make([][]int, attached)
+		pos := make([][]int, attached)
 		state := make([]int, attached)
-		for _, e := range log {
+		for k, e := range log {
 			if vDiagram(state[e[0]], e[1]) {
 				state[e[0]] = e[1]
 				events[e[0]] = append(events[e[0]], e[1])
+				pos[e[0]] = append(pos[e[0]], k)
 			}
 		}
+		after := func(i, from int) []int {
+			var l []int
+			for k, p := range pos[i] {
+				if p >= from {
+					l = append(l, events[i][k])
+				}
+			}
+			return l
+		}
 		for j := 1; j < attached; j++ {
-			if fmt.Sprint(events[j]) != fmt.Sprint(events[0]) {
+			if state[j] != state[0] || (len(events[j]) > 0 && events[j][0] != 1) ||
+				fmt.Sprint(after(j, attachAt[j])) != fmt.Sprint(after(0, attachAt[j])) {
 				out.Oracle("shared-late-instance-misses-status", term,
 					fmt.Sprintf("reports_before_first_late_attach=%d instance=%d delivered=%v first=%v", firstLateAt, j, events[j], events[0]))
 				break
@@ -219,7 +310,10 @@ func TestVerifC11SharedConc(t *testing.T) {
 		late := &vGateHost{i: 1, mu: &mu, log: &log, inside: make(chan struct{}), gate: make(chan struct{})}
 		attachDone := make(chan struct{})
 		go func() { _ = comp.Start(context.Background(), late); close(attachDone) }()
-		<-late.inside // the replay to the late instance has begun
+		select {
+		case <-late.inside: // the replay to the late instance has begun
+		case <-time.After(5 * time.Second): // nothing was replayed at all (the oracle / the model will say so)
+		}
 		reportDone := make(chan struct{})
 		go func() {
 			componentstatus.ReportStatus(inner.host, componentstatus.NewEvent(componentstatus.Status(x)))
@@ -264,7 +358,9 @@ func TestVerifC11SharedConc(t *testing.T) {
 		} else {
 			out.Stat("report_waited_for_attach", 1)
 		}
-		if fmt.Sprint(events[1]) != fmt.Sprint(events[0]) {
+		// the late instance ends in the same status as the first one (the report issued during its attach included) and
+		// what it was delivered begins with Starting
+		if state[1] != state[0] || (len(events[1]) > 0 && events[1][0] != 1) {
 			out.Oracle("shared-concurrent-report-missed", term,
 				fmt.Sprintf("report %d issued during the late attach: late instance delivered=%v first=%v overtook=%v", x, events[1], events[0], overtook))
 		}
